@@ -5,7 +5,7 @@ import json
 
 from common import *
 
-IMPORTS = "Loop.World Loop.Checks"
+IMPORTS = "Loop.World Loop.Checks Loop.LocalChecks"
 ROUNDS, FUEL = 14, 60
 
 
@@ -43,13 +43,13 @@ def gen_script(rng, me, n, gates, allow_fail=True, rich=True, min_msg=0):
     return (effs, fin)
 
 
-def gen_scenario(rng, focus="mixed"):
+def gen_scenario(rng, focus="mixed", link_p=0.8):
     n = rng.choice([1, 2, 2, 3, 3, 4])
     gates = [1]
     actors = []
     for i in range(n):
         link = None
-        if i > 0 and rng.random() < 0.8:
+        if i > 0 and rng.random() < link_p:
             link = rng.randrange(i)
         sup = None if rng.random() < 0.6 else gen_script(rng, i, n, gates)
         pre_fail = rng.random() < 0.12
@@ -170,7 +170,13 @@ def op_line(o):
     return " ".join(str(x) for x in o)
 
 
-def to_line(sc):
+MODES = ("send", "local-adapter", "local-native")
+
+
+def to_line(sc, mode="send"):
+    """mode "send" renders exactly the historical line (no mode section)"""
+    if mode != "send":
+        return f"mode: {mode} | " + to_line(sc)
     acts = " ; ".join(
         f"pre={script_line(a['pre'])} ps={script_line(a['ps'])} stop={script_line(a['stop'])} "
         f"sup={'def' if a['sup'] is None else script_line(a['sup'])} link={'-' if a['link'] is None else a['link']}"
@@ -288,7 +294,59 @@ TRUSTED = [
 ]
 
 
+def _variants(sc):
+    """one-step reductions of a scenario: drop one driver op, drop one script effect"""
+    out = []
+    for k in range(len(sc["ops"])):
+        if sc["ops"][k][0] == "spawn":
+            continue
+        v = json.loads(json.dumps(sc))
+        del v["ops"][k]
+        out.append(v)
+    for ai, a in enumerate(sc["actors"]):
+        for field in ("pre", "ps", "stop", "sup"):
+            scr = a[field]
+            if not scr:
+                continue
+            for k in range(len(scr[0])):
+                v = json.loads(json.dumps(sc))
+                del v["actors"][ai][field][0][k]
+                out.append(v)
+    for m, scr in sc["msgs"].items():
+        for k in range(len(scr[0])):
+            v = json.loads(json.dumps(sc))
+            del v["msgs"][str(m)][0][k]
+            out.append(v)
+    for v in out:
+        v["msgs"] = {int(k): x for k, x in v["msgs"].items()}
+    return out
+
+
+def shrink(chk, build, sc, oracle_fn, accept, rounds=25):
+    """greedy delta-debugging of an oracle-rejected scenario against the real code: keep a
+    reduction as long as the oracle still rejects the implementation's trace"""
+    cur = sc
+    for _ in range(rounds):
+        vs = _variants(cur)
+        if not vs:
+            break
+        impl = run_harness(build, "eng_world", [to_line(v) for v in vs], shards=8)
+        exprs = [oracle_fn(len(v["actors"]), links_coq(v), it) for v, it in zip(vs, impl)]
+        res = coq_eval(chk.prop + "_shrink", IMPORTS, exprs, scope="nat_scope")
+        nxt = None
+        for v, r in zip(vs, res):
+            if not accept(parse_term(r)):
+                nxt = v
+                break
+        if nxt is None:
+            break
+        cur = nxt
+    it = run_harness(build, "eng_world", [to_line(cur)])[0]
+    return cur, it
+
+
 def compare_build(chk, scs, build, tag, oracle_fn, accept, what, distinct):
+    shrunk = False
     compared = discarded = 0
     impl = run_harness(build, "eng_world", [to_line(sc) for sc in scs], shards=8)
     exprs = []
@@ -311,6 +369,16 @@ def compare_build(chk, scs, build, tag, oracle_fn, accept, what, distinct):
         vi = per_actor(itr, n)
         desc = {"scenario": to_line(sc), "impl_trace": it}
         if not accept(oracle):
+            if not shrunk:
+                # minimise the first failing scenario against the real code
+                shrunk = True
+                try:
+                    small, small_trace = shrink(chk, build, sc, oracle_fn, accept)
+                    desc["minimised_scenario"] = to_line(small)
+                    desc["minimised_impl_trace"] = small_trace
+                    desc["minimised_scenario_json"] = {"actors": small["actors"], "msgs": {str(k): v for k, v in small["msgs"].items()}, "ops": small["ops"]}
+                except Exception as ex:  # shrinking is best effort
+                    desc["minimise_error"] = str(ex)[:300]
             chk.violation(f"{what}: oracle rejects the implementation's trace (verdict {show_term(oracle)})",
                           f"{chk.prop} oracle rejects the implementation trace; verdict = {show_term(oracle)}\n"
                           + json.dumps(desc, indent=1) + f"\nbuild: {tag}" + "\nreplay: echo '<scenario>' | harness/target/debug/eng_world\n")
